@@ -16,7 +16,7 @@ from ..numpy_utils import (
     _numpy_cache_blocklist,
 )
 from ..utils import AbstractTypeResolver
-from .synced_collection import SyncedCollection, _sc_resolver
+from .synced_collection import SyncedCollection, _detached, _sc_resolver
 
 # Identifies sequences, which are the base type for this class.
 _sequence_resolver = AbstractTypeResolver(
@@ -190,6 +190,7 @@ class SyncedList(SyncedCollection, MutableSequence):
         """
         data = _convert_numpy(data)
         if _sequence_resolver.get_type(data) == "SEQUENCE":
+            data = [_detached(value) for value in data]
             if self._root is not None:
                 # A nested collection is saved as part of its root, so the rest
                 # of the data must be current before it is written back.
